@@ -245,6 +245,93 @@ func (c *octx) c18Cancelled() *eng.Violation {
 	return nil
 }
 
+// prepOnce: a batch node's prep runs exactly once per visit.
+func (c *octx) prepOnce() *eng.Violation {
+	for _, bv := range c.batchViews() {
+		n := 0
+		for _, e := range c.obs.Runs[bv.run].All {
+			if e.Kind == "prep_start" && e.N == bv.mb.N && e.V == bv.mb.V {
+				n++
+			}
+		}
+		// (a node the cancelled run never reached has no phase at all)
+		if n > 1 || (n == 0 && len(bv.evs)+len(bv.post) > 0) {
+			return c.viol("prep-count", "batch node %d visit %d: prep was called %d times", bv.mb.N, bv.mb.V, n)
+		}
+	}
+	return nil
+}
+
+// nestedInFlight: the upper bound for a batch that an item of another batch runs.
+func (c *octx) nestedInFlight(clause string) *eng.Violation {
+	for _, n := range c.sc.Nodes {
+		for _, vs := range n.Visits {
+			for _, it := range vs.Items {
+				for _, o := range it.Exec {
+					if o.Nested == 0 {
+						continue
+					}
+					in := c.sc.Nodes[o.Nested-1]
+					limit := max(in.config().Conc, 1)
+					cur := 0
+					for _, e := range c.res.Events {
+						if e.N != in.ID || e.I == 0 {
+							continue
+						}
+						switch e.Kind {
+						case "exec_start", "fb_start":
+							if cur++; cur > limit {
+								return c.viol(clause, "nested batch node %d (concurrency %d): %d item executions in flight at seq %d", in.ID, in.config().Conc, cur, e.Seq)
+							}
+						case "exec_end", "fb_end":
+							cur--
+						}
+					}
+				}
+			}
+		}
+	}
+	return nil
+}
+
+// panicRule: an exec that panicked is never presented to post as a success.
+func (c *octx) panicRule() *eng.Violation {
+	for _, n := range c.sc.Nodes {
+		if n.Kind != "batch" {
+			continue
+		}
+		for ii, it := range n.visit(0).Items {
+			if len(it.Exec) == 0 || !it.Exec[0].Panic {
+				continue
+			}
+			for _, e := range c.res.Events {
+				if e.Kind == "post_start" && e.N == n.ID {
+					got := splitList(e.S3)
+					if ii < len(got) && !strings.HasPrefix(got[ii], "ER(") {
+						return c.viol("panicked-item-reported-success", "batch node %d: the exec of item %d panicked, yet post received %q for it (IsError()==false)", n.ID, ii, got[ii])
+					}
+				}
+			}
+		}
+	}
+	return nil
+}
+
+func hasPanic(sc *Scn) bool {
+	for _, n := range sc.Nodes {
+		for _, vs := range n.Visits {
+			for _, it := range vs.Items {
+				for _, o := range it.Exec {
+					if o.Panic {
+						return true
+					}
+				}
+			}
+		}
+	}
+	return false
+}
+
 func hasBatch(sc *Scn) bool {
 	for _, n := range sc.Nodes {
 		if n.Kind == "batch" {
@@ -274,6 +361,9 @@ func oracle(c *octx) *eng.Violation {
 	}
 	switch c.prop {
 	case "C01":
+		if hasBatch(c.sc) {
+			return first(c.prepOnce(), c.postAfterItems(), c.slotsHonest(), c.nothingAfterReturn("callback-after-return"))
+		}
 		return first(c.mainEq("trace", projC01, false), c.outcome("result", true, false))
 	case "C02":
 		return first(c.mainEq("attempts", projC02, false), c.lanesEq("item-attempts", projC02, false), c.slots("slot"))
@@ -311,7 +401,7 @@ func oracle(c *octx) *eng.Violation {
 	case "C07":
 		return first(c.lanesEq("item-trace", projFull, false), c.slots("slot"))
 	case "C08":
-		return c.inFlight("upper")
+		return first(c.inFlight("upper"), c.nestedInFlight("upper"))
 	case "C09":
 		if c.sc.Ctx.Kind == "cancel" {
 			return first(c.postAfterItems(), c.slotsHonest())
